@@ -26,13 +26,13 @@ def plan(tier, seed):
                     conds.append(Cond("l1-block-%d%d%d-%s" % (lb, l1, l2, eof), F, "l1_block", env=env, timeout=200))
                     if lb + l1 + l2 <= tot:
                         conds.append(Cond("l1-line-%d%d%d-%s" % (lb, l1, l2, eof), F, "l1_line", env=env,
-                                          timeout=280 if q else 3000))
+                                          timeout=280 if q else 1500))
     for opi in range(H.NOP):
         conds.append(Cond("l2-%s-1cut" % H.OPS[opi][0], F, "l2", env={"C05_OP": opi, "C05_TWO": 0, "C05_NCAPS": 3 if q else 6},
                           timeout=280 if q else 1500))
         if not q:
             conds.append(Cond("l2-%s-2cuts" % H.OPS[opi][0], F, "l2", env={"C05_OP": opi, "C05_TWO": 1, "C05_NCAPS": 2},
-                              timeout=3000))
+                              timeout=1500))
     conds.append(Cond("l3-big-replies", F, "l3", timeout=280 if q else 900))
     conds.append(Cond("l1-vacuity", F, "l1_line", env={"C05_LB": 1, "C05_L1": 1, "C05_L2": 1}, timeout=90, vacuity=True))
     conds.append(Cond("l2-vacuity", F, "l2", env={"C05_OP": 5}, timeout=90, vacuity=True))
